@@ -63,10 +63,12 @@ fn strategy(tier: Tier) -> BoxedStrategy<NetCase> {
     let sizes = tier.pick(ValSizes::Mixed, ValSizes::Huge);
     let maxreq = tier.pick(30usize, 60usize);
     let req = prop_oneof![
-        5 => (any::<u8>(), val_strategy(sizes)).prop_map(|(k, v)| Req::Set(k, v)),
-        1 => (any::<u8>(), (60000u32..70000, any::<u8>())).prop_map(|(k, (len, seed))| Req::Set(k, ValSpec { len, seed })),
-        5 => any::<u8>().prop_map(Req::Get),
-        4 => proptest::collection::vec(any::<u8>(), 1..5).prop_map(Req::Del),
+        20 => (any::<u8>(), val_strategy(sizes)).prop_map(|(k, v)| Req::Set(k, v)),
+        4 => (any::<u8>(), (60000u32..70000, any::<u8>())).prop_map(|(k, (len, seed))| Req::Set(k, ValSpec { len, seed })),
+        // now and then a value around 512 KiB or 1 MiB (no generated size comes near them otherwise)
+        1 => (any::<u8>(), (prop_oneof![524_200u32..524_400, 524_400u32..600_000, 1_048_500u32..1_048_700], any::<u8>())).prop_map(|(k, (len, seed))| Req::Set(k, ValSpec { len, seed })),
+        20 => any::<u8>().prop_map(Req::Get),
+        16 => proptest::collection::vec(any::<u8>(), 1..5).prop_map(Req::Del),
     ];
     (
         prop_oneof![Just(0u64), 100u64..2000, Just(2u64 << 30)],
@@ -428,7 +430,7 @@ pub fn prop() -> Prop<NetCase> {
     Prop {
         id: "C06",
         level: "exploration",
-        rule: "Cases: a request list of 1-30 commands (quick; 60 thorough) over SET/GET/DEL with repeated and absent keys, keys arbitrary UTF-8 (empty, multi-byte, containing CR/LF/NUL), values arbitrary bytes up to 70 KiB (1 MiB thorough), a segmentation plan for the request bytes (all at once / one byte per segment / generated cut points / cuts at and next to every CRLF) sent with TCP_NODELAY and a generated gap, a pipelining depth 1-30, and (a third of the cases) a mode that awaits, after every segment, the replies to all completely sent requests while the first bytes of the next request are already out. A fresh store and an in-process server per case; a raw socket client sends the bytes, then (a quarter of the cases) a late reader sets a 8-300 KB value and pipelines 40-139 GETs of it before reading anything, so that the server writes into full socket buffers, then (half of the cases) the crate's own net::Client runs the list again. Oracle: the received bytes equal, byte for byte, the concatenation of a reference encoder's encodings of the model's answers (+OK, bulk or $-1, :n with each key counted as it is deleted in turn), one reply per request in order, and afterwards the store read through a Handle equals the model. Non-trivial: at least one request split across segments and (pipelining depth >= 2 or a value containing CR, LF or NUL) and a multi-key DEL; distinct = distinct hash of the case.",
+        rule: "Cases: a request list of 1-30 commands (quick; 60 thorough) over SET/GET/DEL with repeated and absent keys, keys arbitrary UTF-8 (empty, multi-byte, containing CR/LF/NUL), values arbitrary bytes up to 70 KiB (1 MiB thorough) and, one request in sixty, around 512 KiB or 1 MiB, a segmentation plan for the request bytes (all at once / one byte per segment / generated cut points / cuts at and next to every CRLF) sent with TCP_NODELAY and a generated gap, a pipelining depth 1-30, and (a third of the cases) a mode that awaits, after every segment, the replies to all completely sent requests while the first bytes of the next request are already out. A fresh store and an in-process server per case; a raw socket client sends the bytes, then (a quarter of the cases) a late reader sets a 8-300 KB value and pipelines 40-139 GETs of it before reading anything, so that the server writes into full socket buffers, then (half of the cases) the crate's own net::Client runs the list again. Oracle: the received bytes equal, byte for byte, the concatenation of a reference encoder's encodings of the model's answers (+OK, bulk or $-1, :n with each key counted as it is deleted in turn), one reply per request in order, and afterwards the store read through a Handle equals the model. Non-trivial: at least one request split across segments and (pipelining depth >= 2 or a value containing CR, LF or NUL) and a multi-key DEL; distinct = distinct hash of the case.",
         assumptions: &[
             "only well-formed upper-case commands (the only ones the server accepts)",
             "TCP may coalesce segments; that affects sensitivity only (C08 controls chunking exactly)",
